@@ -22,6 +22,11 @@ HOSTILE_DATES = ["20200101/20200102", "20200101/P1D", "20200101/20200102T000000Z
                  "20200310T100000ZZ", "20200310T", "T100000", "0001-01-01", "20200310T100000+0100", "",
                  "19700101T000000", "20380119T031408Z", "99999999T999999", "20200310T100000Z/PT1H",
                  "20200310T100000/20200310T090000", "20200310T100000Z/20200310T110000", "P1D", "-P", "PT"]
+HOSTILE_URIS = ["file://server\\new", "mailto:a\\nb@example.com", "mailto:a\\Nb@example.com", "http://x/\\,\\;",
+                "mailto:a\\\\nb@example.com", "", "mailto:", "http://x/%2C%3B%5C", "cid:<a\"b>", "data:;base64,%%%",
+                "urn:x:\\", "http://x/\x01", "mailto:ü@exämple.com"]
+HOSTILE_TEXTS = ["\\", "\\n\\N", "a\\;b\\,c", "%2C%5C%3B%3A", "\\\\\\", "\\x", "a,b;c:d", "\"quoted\"", "\\N\\n\\\\n", "", " ",
+                 "line1\\nBEGIN:VEVENT\\nEND:VEVENT", "\x7f\x1b", "%", "%2", "\\%2C"]
 HOSTILE_DURATIONS = ["P", "PT", "-P1W1D", "P1Y", "PT1H1D", "P-1D", "P1.5D", "P999999999999D", "+P", "p1d",
                      "PT999999999999999999999S", "-P99999999999W", "P0D", "PT0S", "-PT0S", "P1DT", "P1W2D", "PT1M1H",
                      "P999999999D", "PT86400S", "P١D", "P1D ", " P1D", "P1DT1H1M1S1", "PT1H30M15.5S"]
@@ -166,6 +171,10 @@ def draw(rng, doc, kind, other=b""):
                 cands.append((i, "duration"))
             if u.startswith((b"SEQUENCE", b"PRIORITY", b"PERCENT-COMPLETE", b"REPEAT", b"GEO")):
                 cands.append((i, "number"))
+            if u.startswith((b"URL", b"ATTACH", b"ATTENDEE", b"ORGANIZER", b"TZURL")):
+                cands.append((i, "uri"))
+            if u.startswith((b"SUMMARY", b"DESCRIPTION", b"LOCATION", b"CATEGORIES", b"COMMENT", b"TZNAME")):
+                cands.append((i, "text"))
             if u.startswith((b"RRULE", b"EXRULE")):
                 cands.append((i, "rrule"))
                 cands.append((i, "rrule"))
@@ -177,7 +186,7 @@ def draw(rng, doc, kind, other=b""):
         i, what = rng.choice(cands)
         pool = {"tzid-param": HOSTILE_TZIDS, "tzid-prop": HOSTILE_TZIDS, "offset": HOSTILE_OFFSETS,
                 "date": HOSTILE_DATES, "rrule": HOSTILE_RULES, "duration": HOSTILE_DURATIONS,
-                "number": HOSTILE_NUMBERS}[what]
+                "number": HOSTILE_NUMBERS, "uri": HOSTILE_URIS, "text": HOSTILE_TEXTS}[what]
         return {"kind": kind, "i": i, "what": what, "value": rng.choice(pool)}
     if kind == "token_subst":
         present = [t for t in sorted(TOKENS) if t in doc]
